@@ -109,7 +109,7 @@ class C07(Driver):
                     p[k] = r.choice([0.05, 0.2])
         knobs = {"seed": seed, "p": p, "pipe_size": 4096, "clock_phase_ns": r.choice([0, 0, 250000, 999999]),
                  "max_yields": 400000}
-        return {"property": "C07", "knobs": knobs, "steps": steps, "adv": adv}
+        return {"property": "C07", "knobs": knobs, "steps": steps, "adv": adv, "nest": 1 if r.random() < 0.35 else 0}
 
     # ---------------- rendering ----------------
     def render(self, plan):
@@ -158,6 +158,11 @@ class C07(Driver):
             raise ValueError(k)
 
         A("(defn vmain []")
+        if plan.get("nest"):
+            # the whole sequence of waits runs inside one coroutine that the task resumes (as under a long
+            # ev/with-deadline): errors of abandoned waits are caught *inside* the coroutine, the task fiber
+            # itself is not resumed between two waits
+            A("  (ev/with-deadline 1000 (do")
         for st in steps:
             i = st["i"]
             body = op(st)
@@ -165,6 +170,8 @@ class C07(Driver):
                 body = "(ev/with-deadline %s %s)" % (st["deadline"] / 1000.0, body)
             A("  (sim/ev :inv %d)" % i)
             A("  (let [[ok v] (protect %s)] (sim/ev :ret %d ok v))" % (body, i))
+        if plan.get("nest"):
+            A("  ))")
         A("  (sim/ev :vdone))")
         for j, a in enumerate(plan["adv"]):
             A("(defn adv%d []" % j)
@@ -280,6 +287,8 @@ class C07(Driver):
             if cls == "cancel-payload":
                 ok = any(during(c.seq) for c in cancels)
                 why = "no ev/cancel was issued during this wait"
+            elif cls == "deadline-expired" and plan.get("nest") and e1.t >= 999 * 1000000000:
+                ok = True       # the long deadline around the whole nested sequence
             elif cls == "deadline-expired":
                 ok = "deadline" in st and dt >= (st["deadline"] - 1) * 1000000
                 why = "this wait has no deadline that could have expired" if "deadline" not in st else "deadline fired early"
@@ -500,6 +509,10 @@ class C07(Driver):
         if plan["knobs"].get("clock_phase_ns"):
             q = cp()
             q["knobs"]["clock_phase_ns"] = 0
+            yield q
+        if plan.get("nest"):
+            q = cp()
+            q["nest"] = 0
             yield q
 
 
